@@ -123,7 +123,7 @@ def build_zip(entries):
 
 
 def materialise(scn, root):
-    entries = [(e['path'], binascii.unhexlify(e['hex']), e['mtime'], e) for e in scn['tree']]
+    entries = [(e['path'], _data(e), e['mtime'], e) for e in scn['tree']]
     with core.unhooked():
         if scn['kind'] == 'dir':
             top = os.path.join(root, 'mibs')
@@ -268,7 +268,7 @@ def run(scn):
             for e in scn['tree']:
                 segs = e['path'].split('!/')
                 base = os.path.basename(segs[-1])
-                data = binascii.unhexlify(e['hex'])
+                data = _data(e)
                 depth = len(segs) - 1
                 if scn['kind'] == 'dir':
                     sub = os.path.dirname(e['path'])
@@ -428,6 +428,11 @@ def run_url(scn):
 
 
 # --------------------------------------------------------------------------
+def _data(e):
+    """payload of a tree entry (a few entries carry megabytes of trailing blanks, kept out of the scenario as a count)"""
+    return binascii.unhexlify(e['hex']) + b' ' * int(e.get('pad', 0))
+
+
 def _hex(b):
     return binascii.hexlify(b).decode()
 
@@ -528,7 +533,14 @@ def generate(rng, tier):
     if rng.random() < 0.15:
         sizes = sorted(set(len(binascii.unhexlify(e['hex'])) for e in tree if e['hex']))
         scn['maxMibSize'] = rng.choice(sizes + [s + 1 for s in sizes] + [16, 64]) if sizes else 16
-    if rng.random() < 0.25:
+    big = rng.random() < 0.004
+    if big and tree:
+        # one file of just over 10 000 000 bytes (the readers' default size limit) with the limit raised well above it
+        e_ = rng.choice(tree)
+        if '!/' not in e_['path'] and not e_['path'].lower().endswith('.zip'):
+            e_['pad'] = 10000100 - len(e_['hex']) // 2
+            scn['maxMibSize'] = 25000000
+    if rng.random() < 0.25 and not big:
         scn['rate'] = {'p': rng.choice([0.03, 0.1, 0.3]), 'seed': rng.randrange(1 << 30),
                        'sites': sorted(rng.sample(['os.stat', 'os.listdir', 'open', 'file.read'], rng.randrange(1, 5)))}
     if rng.random() < 0.2:
@@ -552,7 +564,12 @@ def shrink(scn):
         s = copy.deepcopy(scn)
         del s['tree'][i]
         yield s
-    for k in ('maxMibSize', 'index', 'empty_dirs', 'repeat', 'recursive', 'ignoreErrors', 'useIndexFile', 'notazip', 'more_requests', 'tz', 'second_opts'):
+    for i, e in enumerate(scn['tree']):
+        if e.get('pad'):
+            s = copy.deepcopy(scn)
+            s['tree'][i].pop('pad')
+            yield s
+    for k in ('maxMibSize', 'index', 'empty_dirs', 'repeat', 'recursive', 'ignoreErrors', 'useIndexFile', 'notazip', 'more_requests', 'tz', 'second_opts', 'decoy', 'linkdir'):
         if k in scn:
             s = copy.deepcopy(scn)
             s.pop(k)
